@@ -427,6 +427,43 @@ fn build_header<T: Element>(shape: &[usize]) -> io::Result<Vec<u8>> {
     Ok(header)
 }
 
+/// Verification hooks (only compiled with `--cfg rten_verif`): thin wrappers
+/// exposing the private header builder / parser to an external harness.
+#[cfg(rten_verif)]
+#[doc(hidden)]
+pub mod verif_hooks {
+    use super::*;
+
+    /// `(big_endian, kind char, item_size, fortran_order, shape)`.
+    pub type ParsedHeader = (bool, char, usize, bool, Vec<usize>);
+
+    fn flatten(h: Header) -> ParsedHeader {
+        (
+            h.dtype.big_endian,
+            h.dtype.kind.as_char(),
+            h.dtype.item_size,
+            h.fortran_order,
+            h.shape,
+        )
+    }
+
+    pub fn build_header(dtype: DataType, shape: &[usize]) -> io::Result<Vec<u8>> {
+        dispatch_data_type!(dtype, T => super::build_header::<T>(shape))
+    }
+
+    pub fn parse_header(header: &str) -> io::Result<ParsedHeader> {
+        super::parse_header(header).map(flatten)
+    }
+
+    pub fn read_header(reader: impl io::Read) -> io::Result<ParsedHeader> {
+        super::read_header(reader).map(flatten)
+    }
+
+    pub fn fortran_order_to_row_major<T: Clone>(values: Vec<T>, shape: &[usize]) -> Vec<T> {
+        super::fortran_order_to_row_major(values, shape)
+    }
+}
+
 #[cfg(test)]
 mod tests {
     use std::sync::atomic::{AtomicUsize, Ordering};
